@@ -1317,6 +1317,21 @@ def region_mix(repo, out):
     if not found:
         raise Unparsed("%s: Bernoulli draw is not a top-level disjunct" % hdr)
     del bern_stream[1:]
+    # the disjuncts evaluated before anthropogenic_kernel_->is_cell_eligible(row, col)
+    before_elig = []
+    queried = False
+    for d in dis:
+        n0 = len(bern_stream)
+        tt = mb(d)
+        del bern_stream[n0:]
+        if "eligible" in tt:
+            if tt not in ("eligible", "(negb eligible)"):
+                raise Unparsed("%s: the eligibility test is nested inside %s" % (hdr, tt))
+            queried = True
+            break
+        if "bernoulli" in tt:
+            raise Unparsed("%s: the Bernoulli draw precedes the eligibility test" % hdr)
+        before_elig.append(tt)
 
     def which(toks_):
         if toks_[0][1] != "return":
@@ -1337,6 +1352,9 @@ def region_mix(repo, out):
     out.append("Definition mix_choice_of %s : mix_choice :=\n  if mix_condition use_anthropogenic eligible bernoulli then %s else %s." % (sig, a, b))
     out.append("Definition mix_draws_bernoulli (use_anthropogenic eligible : bool) : bool :=\n  negb (%s)." % (" || ".join(before) if before else "false"))
     out.append("Definition mix_bernoulli_stream : mix_stream := %s." % bern_stream[0])
+    out.append("(* whether anthropogenic_kernel_ is dereferenced for is_cell_eligible (|| short-circuits) *)")
+    out.append("Definition mix_queries_eligibility (use_anthropogenic : bool) : bool :=\n  %s."
+               % (("negb (%s)" % (" || ".join(before_elig) if before_elig else "false")) if queried else "false"))
     out.append("Definition mix_kernel_stream (c : mix_choice) : mix_stream :=\n  match c with %s => %s | %s => %s end."
                % (a, sa, b, sb) if a != b else "Definition mix_kernel_stream (c : mix_choice) : mix_stream := %s." % sa)
 
@@ -1847,7 +1865,34 @@ def region_dynamic_kernel(repo, out):
         i += 1
     if len(flat) < 3 or flat[0][1] != "DispersalKernel" or flat[1][1] != "(" or match_close(flat, 1, "(", ")") != len(flat) - 1:
         raise Unparsed("%s: create_dynamic_kernel does not return DispersalKernel<Generator>(...)" % hdr)
-    args = [joined(a) for a in split_top(flat[2:-1])]
+    atoks = split_top(flat[2:-1])
+    args = [joined(a) for a in atoks]
+    # the anthropogenic kernel may be built only when it is enabled:
+    #   config.use_anthropogenic_kernel ? create_anthro_kernel(...) : std::unique_ptr<...>(nullptr)
+    built = "true"
+    if len(atoks) >= 2 and any(x[1] == "?" for x in atoks[1]):
+        a2 = atoks[1]
+        q = [x[1] for x in a2].index("?")
+        depth = 0
+        colon = -1
+        for n in range(q + 1, len(a2)):
+            if a2[n][1] in "([{":
+                depth += 1
+            elif a2[n][1] in ")]}":
+                depth -= 1
+            elif a2[n][1] == ":" and depth == 0:
+                colon = n
+                break
+        if colon < 0:
+            raise Unparsed("%s: create_dynamic_kernel: the anthropogenic kernel argument is %s" % (hdr, args[1]))
+        cond, yes, no = joined(a2[:q]), joined(a2[q + 1:colon]), joined(a2[colon + 1:])
+        null = r"(std::unique_ptr<KernelInterface<Generator>>\((nullptr)?\)|nullptr)"
+        if cond == "!config.use_anthropogenic_kernel":
+            cond, yes, no = "config.use_anthropogenic_kernel", no, yes
+        if cond != "config.use_anthropogenic_kernel" or not re.fullmatch(null, no) or re.fullmatch(null, yes):
+            raise Unparsed("%s: create_dynamic_kernel: the anthropogenic kernel argument is %s" % (hdr, args[1]))
+        args[1] = yes
+        built = "use_anthropogenic_kernel"
     # the alias: DispersalKernel = NaturalAnthropogenicDispersalKernel<KernelInterface<Generator>, KernelInterface<Generator>>
     i = find_seq(toks, ["using", "DispersalKernel", "="])
     if i < 0:
@@ -1860,6 +1905,8 @@ def region_dynamic_kernel(repo, out):
     out.append("(* ---- kernel.hpp: create_dynamic_kernel: arguments of the NaturalAnthropogenicDispersalKernel constructor\n"
                "   (natural_kernel, anthropogenic_kernel, use_anthropogenic_kernel, percent_natural_dispersal) ---- *)")
     out.append("Definition dynamic_kernel_args : list string :=\n  [ %s ]." % "; ".join(coq_string(a) for a in args))
+    out.append("(* whether the anthropogenic kernel object exists (otherwise a null pointer is handed to the mix) *)")
+    out.append("Definition dynamic_kernel_anthro_built (use_anthropogenic_kernel : bool) : bool := %s." % built)
 
 
 def main():
